@@ -461,6 +461,7 @@ type InjectCase struct {
 	Shape  string   `json:"shape"` // e.g. "0 AND (1 OR 2)" : digits index Props/Values
 	Props  []string `json:"props"`
 	Values []string `json:"values"`
+	Kinds  []string `json:"kinds,omitempty"` // how each value sits in the context: text (default), object (a result/input like object whose default is the text), number
 	Redact bool     `json:"redact"`
 }
 
@@ -516,7 +517,17 @@ func runInject(c InjectCase) *harn.Failure {
 	env := envFor(c.Redact, "")
 	props := map[string]types.XValue{}
 	for i, v := range c.Values {
-		props[fmt.Sprintf("v%d", i)] = types.NewXText(v)
+		kind := ""
+		if i < len(c.Kinds) {
+			kind = c.Kinds[i]
+		}
+		switch kind {
+		case "object":
+			// like @results.x or @input: an object that renders as its default, which is user-controlled text
+			props[fmt.Sprintf("v%d", i)] = types.NewXObject(map[string]types.XValue{"__default__": types.NewXText(v), "value": types.NewXText(v), "category": types.NewXText("Other")})
+		default:
+			props[fmt.Sprintf("v%d", i)] = types.NewXText(v)
+		}
 	}
 	ctx := types.NewXObject(props)
 	tpl := c.template()
@@ -603,6 +614,7 @@ func TestInjection(t *testing.T) {
 				v = rapid.SampledFrom([]string{`" OR name != "`, `x" OR "1" = "1`, `\" OR name != \"`, `\`, `a\`, `\\`, `") OR (name = "`, `" AND tel = "+250788123456`, `x\" OR uuid != \"x`, "\" OR\n name ~ \"ab", `"`, `""`, `\"`, `a" b`, `OR`, `= "x`, `(`}).Draw(rt, "attackv")
 			}
 			c.Values = append(c.Values, v)
+			c.Kinds = append(c.Kinds, rapid.SampledFrom([]string{"text", "text", "object"}).Draw(rt, "kind"))
 		}
 		if stats.WantSample() {
 			stats.Sample(map[string]any{"kind": "injection", "template": c.template(), "values": c.Values})
